@@ -32,6 +32,10 @@ func TestC21RevocationRace(t *testing.T) {
 		"distinct = distinct (history, id) partitions; non-trivial = the partition has lookups and state changes"
 	r.Assume("this part does not decrypt tokens (Argon2id under -race is unaffordable); it observes the revocation decision that all three doors delegate to")
 
+	if vh.ReplayCase() != nil {
+		t.Skip("an interleaving cannot be replayed from its record; rerun the part")
+	}
+
 	ids := []tokens.Token{}
 	for i := 0; i < 3; i++ {
 		ids = append(ids, tokens.Token{Name: users[i%2], TokenID: uuid.New(), Created: time.Now(), Expires: time.Now().Add(time.Hour)})
